@@ -181,7 +181,10 @@ func newReplayer(spec *Spec, specDir string) (*replayer, error) {
 	// test dispatcher per package
 	for pkg := range spec.Files {
 		pdir := filepath.Join(repoDir, pkg)
-		name, _ := pkgNameOf(pdir)
+		name, err := pkgNameOf(pdir)
+		if err != nil {
+			name = filepath.Base(pkg)
+		}
 		var sb strings.Builder
 		sb.WriteString("package " + name + "\n\nimport (\n\t\"os\"\n\t\"strconv\"\n\t\"testing\"\n)\n\n")
 		sb.WriteString("func TestVfReplay(t *testing.T) {\n\tc, _ := strconv.Atoi(os.Getenv(\"VF_CASE\"))\n\tswitch os.Getenv(\"VF_HARNESS\") {\n")
@@ -240,6 +243,9 @@ func (r *replayer) run(w *Witness) (bool, string) {
 	os.WriteFile(wp, b, 0o644)
 	cmd := exec.Command(bin, "-test.run", "^TestVfReplay$", "-test.timeout", "120s")
 	cmd.Dir = filepath.Join(repoDir, w.Pkg)
+	if st, err := os.Stat(cmd.Dir); err != nil || !st.IsDir() {
+		cmd.Dir = repoDir
+	}
 	cmd.Env = append(goEnv(), "VF_WITNESS="+wp, "VF_HARNESS="+w.Harness, fmt.Sprintf("VF_CASE=%d", w.Case))
 	done := make(chan struct{})
 	var out []byte
